@@ -63,9 +63,11 @@ type KDC struct {
 	TicketLifetime    time.Duration
 	ServiceLifetime   time.Duration // lifetime of service tickets (0 = TicketLifetime)
 	RenewLifetime     time.Duration
-	LenientRenewUsage bool                                     // a renewal request for a SERVICE ticket whose authenticator is under key usage 11 is served (gokrb5 picks the usage by the presented ticket's sname; RFC 4120 7.5.1 says 7: a strict KDC answers BAD_INTEGRITY and the client asks afresh)
-	OmitStartTime     bool                                     // tickets and replies leave the OPTIONAL starttime out (RFC 4120 5.3, 5.4.2: absent = authtime)
-	UDPTooBig         bool                                     // every UDP request is answered KRB_ERR_RESPONSE_TOO_BIG: the client must come back over TCP
+	LenientRenewUsage bool            // a renewal request for a SERVICE ticket whose authenticator is under key usage 11 is served (gokrb5 picks the usage by the presented ticket's sname; RFC 4120 7.5.1 says 7: a strict KDC answers BAD_INTEGRITY and the client asks afresh)
+	OmitStartTime     bool            // tickets and replies leave the OPTIONAL starttime out (RFC 4120 5.3, 5.4.2: absent = authtime)
+	UDPTooBig         bool            // every UDP request is answered KRB_ERR_RESPONSE_TOO_BIG: the client must come back over TCP
+	asScript          func(n int) int // see SetASScript
+	asSeen, referred  int
 	HintOrder         int                                      // with ExtraHints: 0 = INFO2, INFO, PW-SALT; 1 = INFO, INFO2, PW-SALT; 2 = PW-SALT, INFO, INFO2 (the order is not significant)
 	ExtraHints        bool                                     // PREAUTH_REQUIRED / FAILED e-data also carries ETYPE-INFO (another etype first) and PW-SALT after ETYPE-INFO2
 	Backdate          time.Duration                            // initial tickets carry an authtime/starttime this far in the past
@@ -114,6 +116,14 @@ func (k *KDC) AddPrincipal(name []string, password string, kvno int) *Principal 
 }
 
 // SetErrorCode makes the KDC answer every request with this KRB-ERROR code (0: normal service); safe while serving.
+// SetASScript: when f is not nil it decides the answer to the n-th AS-REQ from now on: 0 process it, -1 an undecodable
+// reply, 68 a client referral to REFERRED<k>.GOKRB5, any other number that KRB-ERROR (24 and 25 with hints).
+func (k *KDC) SetASScript(f func(n int) int) {
+	k.mu.Lock()
+	k.asScript, k.asSeen, k.referred = f, 0, 0
+	k.mu.Unlock()
+}
+
 func (k *KDC) SetErrorCode(code int32) {
 	k.mu.Lock()
 	k.ErrorCode = code
@@ -228,8 +238,27 @@ func (k *KDC) handleAS(raw []byte) []byte {
 	k.mu.Lock()
 	k.Requests = append(k.Requests, Request{Kind: "AS", AS: &req, Raw: raw, At: time.Now()})
 	ec := k.ErrorCode
+	if k.asScript != nil {
+		ec = int32(k.asScript(k.asSeen))
+		k.asSeen++
+	}
 	k.mu.Unlock()
 	sname := req.ReqBody.SName
+	if ec == -1 {
+		return []byte{0x6b, 0x03, 0x02, 0x01, 0x05} // an AS-REP tag with nothing a client can use inside
+	}
+	if ec == 68 {
+		// client referral (RFC 6806 7): the error names the realm to ask instead
+		k.mu.Lock()
+		k.referred++
+		n := k.referred
+		k.mu.Unlock()
+		e := messages.NewKRBError(sname, k.Realm, 68, "simulated KDC")
+		e.CRealm = fmt.Sprintf("REFERRED%d.GOKRB5", (n-1)%8+1)
+		e.CName = req.ReqBody.CName
+		b, _ := e.Marshal()
+		return b
+	}
 	if ec != 0 {
 		var ed []byte
 		if ec == 24 || ec == 25 {
